@@ -1,4 +1,5 @@
 import TantivyModel.Proofs.Sorted
+import TantivyModel.Proofs.SortedDocView
 /-!
 # C17 — A sorted index keeps every segment in sort order, with unchanged semantics
 
@@ -86,11 +87,40 @@ theorem C17_remap_consistent {α} (s : RawSeg α) (keys : List SKey) (desc : Boo
         (ps.map fun p => { p with doc := (oldToNewOf π).getD p.doc 0 })
       exact this.imp (fun h => by simpa using h)
 
+/-- POSTINGS STAY ATTACHED TO THE RIGHT DOCUMENT. The term view of new document `n` of the sorted
+segment — every term it occurs in, with term frequency and positions — is exactly the term view of
+the document that was inserted as `π n` (`d = (sortOrder keys)[n]`). Together with
+`C17_remap_consistent` (stored fields, norms, fast values and opstamps of `n` are those of `π n`)
+this is "sorting changes nothing else", document by document. Hypothesis: the recorders hold each
+document at most once per term and only ids of the segment. -/
+theorem C17_remap_docview {α} (s : RawSeg α) (keys : List SKey) (desc : Bool) (n d : Nat)
+    (hn : n < keys.length) (hπ : (sortOrder keys desc)[n]? = some d)
+    (hpost : ∀ t ∈ s.terms, (t.2.map (·.doc)).Nodup ∧ ∀ p ∈ t.2, p.doc < keys.length) :
+    docTerms (sortedSegment s keys desc).terms n = docTerms s.terms d := by
+  simp only [docTerms, sortedSegment, List.filterMap_map]
+  apply filterMap_congr_mem
+  intro t ht
+  obtain ⟨hnd, hb⟩ := hpost t ht
+  have h := find_remapped keys desc t.2 n d hn hπ hnd hb
+  have e : ∀ x : Option Posting, x.map (fun p => (t.1, p.tf, p.pos))
+      = (x.map fun p => (p.tf, p.pos)).map fun y => (t.1, y.1, y.2) := by
+    intro x; cases x <;> rfl
+  simp only [Function.comp]
+  rw [e, e, h]
+
 def exRaw : RawSeg Nat :=
   { docs := [100, 101, 102], opstamps := [7, 8, 9],
     terms := [([97], [⟨0, 1, [0]⟩, ⟨2, 2, [1, 4]⟩]), ([98], [⟨1, 1, [3]⟩])] }
 
 example := C17_remap_consistent exRaw [some 5, none, some 3] false rfl rfl
+example : sortOrder [some 5, none, some 3] false = [1, 2, 0] := by
+  simp [sortOrder, List.zipIdx, List.mergeSort, List.MergeSort.Internal.splitInTwo, dirLe, keyLe]
+/-- new doc 1 of the sorted segment is old doc 2 and carries its postings -/
+example : docTerms (sortedSegment exRaw [some 5, none, some 3] false).terms 1 = docTerms exRaw.terms 2 :=
+  C17_remap_docview exRaw [some 5, none, some 3] false 1 2 (by decide)
+    (by simp [sortOrder, List.zipIdx, List.mergeSort, List.MergeSort.Internal.splitInTwo, dirLe, keyLe])
+    (by decide)
+example : docTerms exRaw.terms 2 = [([97], 2, [1, 4])] := by decide
 
 /-- Deletes inside the transaction: a delete with opstamp `t` hits a matching document iff the
 document's opstamp is smaller. Evaluated on the sorted segment with the REMAPPED opstamps it
